@@ -330,6 +330,11 @@ func scenarioGroup(w *pool.W, scs []*Scenario, tier string, runtime bool) error 
 		}
 		meta["features"] = planFeatures(res.Plan)
 		meta["prop_val"] = sc.PropVal
+		var apiNames []string
+		for _, m := range sc.Methods {
+			apiNames = append(apiNames, m.Name)
+		}
+		meta["api_methods"] = apiNames
 		mode := sc.Mode
 		if mode == "" {
 			mode = "value,nomutate"
